@@ -1367,3 +1367,77 @@ def multichannel_queue_ok(n1, n2, want_endmarker: bool, close1: bool) -> bool:
         got[ch.id].append(item)
     tail = [END] if want_endmarker else []
     return got[1] == list(range(n1)) + tail and got[3] == [100 + k for k in range(n2)] + tail
+
+
+def group_history_ok(ops, explicit) -> bool:
+    """A history of allocate_id(auto) [0], allocate_id(explicit) [1], register-oldest-pending [2],
+    unregister-first-live [3] steps.  Invariant: ids held by pending specs and live members are
+    pairwise distinct unless the duplicate was refused (ValueError at allocation / assert at
+    registration), and live members never share an id."""
+    from execnet.multi import Group
+    from execnet.xspec import XSpec
+
+    g = Group()
+    pending = []   # specs that got an id but are not registered yet (gateway still being created)
+    live = []
+    autos = []     # automatically allocated ids currently held by a pending spec or a live member
+    nexp = 0
+    for op in ops:
+        if op == 0 or op == 1:
+            if op == 1:
+                if nexp >= len(explicit):
+                    continue
+                s = XSpec("popen//id=" + explicit[nexp])
+                nexp += 1
+            else:
+                s = XSpec("popen")
+            try:
+                g.allocate_id(s)
+            except ValueError:
+                continue
+            if not s.id:
+                return False
+            if op == 0:
+                # automatically allocated ids are unique among themselves (whether their gateway is still
+                # being created or already live) and never equal to a live member's id
+                for a in autos:
+                    if a == s.id:
+                        return False
+                for gw in live:
+                    if gw.id == s.id:
+                        return False
+                autos.append(s.id)
+            pending.append(s)
+        elif op == 2:
+            if not pending:
+                continue
+            s = pending.pop(0)
+            gw = FakeGateway(s.id)
+            dup = False
+            for o in live:
+                if o.id == s.id:
+                    dup = True
+            try:
+                g._register(gw)
+            except AssertionError:
+                if not dup:
+                    return False
+                continue
+            if dup:
+                return False
+            live.append(gw)
+        else:
+            if not live:
+                continue
+            gw = live.pop(0)
+            g._unregister(gw)
+            if gw.id in autos:
+                autos.remove(gw.id)   # a finished gateway's id may be issued again
+        ids = [gw.id for gw in g]
+        if ids != [gw.id for gw in live]:
+            return False
+        for a in range(len(ids)):
+            for b in range(a + 1, len(ids)):
+                if ids[a] == ids[b]:
+                    return False
+    return True
